@@ -86,3 +86,13 @@ pub fn emit_rules(arg: &str) -> (bool, String) {
     if let Err(e) = std::fs::write(out, src) { return (false, format!("cannot write {out}: {e}")); }
     (false, format!("{} rules written", all.len()))
 }
+
+/// C10: "names with empty labels are rejected" -- for the yes/no question `is_effective_tld` that means `false`; for the lookup an error.
+/// arg ignored.
+pub fn empty_labels(_arg: &str) -> (bool, String) {
+    for d in ["", ".", "..", ".com", "com.", "a..com", "co.uk.", ".co.uk"] {
+        if DEFAULT_PROVIDER.is_effective_tld(d) { return (true, format!("is_effective_tld({d:?}) = true: a name with an empty label is taken for an effective TLD")); }
+        if DEFAULT_PROVIDER.effective_tld_plus_one(d).is_ok() { return (true, format!("effective_tld_plus_one({d:?}) is Ok: a name with an empty label is not rejected")); }
+    }
+    (false, "names with empty labels are rejected".into())
+}
